@@ -363,6 +363,8 @@ def gen_downsample(rng, n_sel, n_valid):
         return 0
     if r < 0.25:
         return int(rng.integers(0, n_sel + 3))            # naive
+    if r < 0.33:
+        return n_sel + int(rng.integers(0, 2 * n_sel + 2))  # at least every selected event
     if n_valid < 1:
         return 0
     if r < 0.40:
